@@ -63,6 +63,9 @@ func c08Items(name string, thorough bool) []item {
 	if s.length >= 2 {
 		add(octetSweep(s.length, append([]int{0}, s.reserved...)))
 	}
+	if s.length >= 1 {
+		add(wrapLengths(s.length))
+	}
 	return out
 }
 
